@@ -12,7 +12,7 @@ EXPLANATION = (
     "and sends an Err into every drained sender, and crosses the close of the write side so later calls fail instead of "
     "blocking; (write-failure-returns) a call waits for a response only on the Ok edge of its own write, and every receive-"
     "side failure (timeout, closed channel) is mapped to Err; (notify-closed-on-loss) the WebSocket fail_all_pending always "
-    "empties the notify slot, which ends the subscriber's stream; (pending-removed-on-abandon) in the blocking client every "
+    "empties the notify slot, which ends the subscriber's stream; (loss-signal-ends-loop) in each response loop the edges on which the frame read reports an error, the stream ends, or (WebSocket) a frame is undecodable never lead back to another read - the only retry is io::ErrorKind::Interrupted on the blocking read - and decode_websocket_frame maps a peer Close frame to Err and skips nothing but Ping/Pong/raw frames; (pending-removed-on-abandon) in the blocking client every "
     "non-success arm of the wait and the write-failure path cross remove_pending(id); in the async and WebSocket clients "
     "the PendingRequestGuard is live (never moved or forgotten) across every later await and return, its Drop removes the "
     "key unless disarmed, and disarm happens only after a response was received. Late responses are discarded without "
@@ -60,7 +60,8 @@ def run(facts, R):
         R.check(w is None, "loop-exit-fails-all", lb.path, "every exit fails the waiters",
                 "the response loop can end without fail_all_pending: calls in flight would wait forever", lb.span,
                 "all returns cross fail_all_pending (exceptions used: %s)" % sorted(used), path=w)
-        # read errors reach fail_all_pending with the error that was read
+        # ---- loss-signal-ends-loop: once the connection reported loss, the loop never reads again
+        loss_signal_rule(facts, R, module, lb, ls)
         # ---- fail_all_pending itself
         fb = facts.body(failfn)
         fsym = Sym(fb)
@@ -241,6 +242,65 @@ def run(facts, R):
         sn = [(i, t) for i, t in dp.calls() if t["callee"]["name"] == "send"]
         R.check(len(dr) == 1 and len(sn) == 1, "loop-exit-fails-all", dp.path, "Drop drains and fails waiters", "drain=%d send=%d" % (len(dr), len(sn)), dp.span,
                 "backs the upgrade-none exit exception")
+
+
+READ_FNS = ("io::read_message", "async_io::read_message_async", "futures_util::StreamExt::next", "websocket_client::decode_websocket_frame")
+LOSS_WRAPPERS = ("poll", "poll_fn", "new", "new_unchecked", "into_future", "get_context", "as_mut", "get_mut", "deref_mut")
+LOSS_EXCEPTIONS = {
+    "interrupted-retry": "io::ErrorKind::Interrupted from the blocking read is a signal interruption (EINTR), not a lost connection: the read is retried",
+}
+
+
+def _read_result_fact(f):
+    """A discriminant fact that talks about the frame-read result itself (possibly through await/select wrappers)."""
+    names = [x[1] for x in walk(f["expr"]) if x[0] == "call"]
+    if not any(n in READ_FNS for n in names):
+        return False
+    return all(n in READ_FNS or n.rsplit("::", 1)[-1] in LOSS_WRAPPERS for n in names)
+
+
+def loss_signal_rule(facts, R, module, lb, ls):
+    reads = [term_pt(lb, i) for i, t in lb.calls() if t["callee"]["path"] in READ_FNS[:3]]
+    R.floor("loss-signal-ends-loop", len(reads), 1, "frame reads in " + lb.path)
+    loss, stops, used = [], [], set()
+    kinds = set()
+    for x in sorted(lb.live_blocks()):
+        for f in facts_at(lb, ls, facts, x):
+            v = str(f["val"])
+            is_dec = "decode_websocket_frame" in render(f["expr"])
+            if (v == "Err" or (v == "None" and not is_dec)) and _read_result_fact(f):
+                loss.append((x, 0))
+                kinds.add((v, "decode" if is_dec else "read"))
+            txt = render(f["expr"])
+            only_interrupted = (f["val"] is True and is_call(f["expr"], "eq") and "Interrupted" in txt) or \
+                               (is_call(f["expr"], "kind") and (f["val"] == "Interrupted" or f["val"] == ("in", ["Interrupted"])))
+            if only_interrupted and "read_message" in txt:
+                stops.append((x, 0))
+                used.add("interrupted-retry")
+    want = {"client": 1, "async_client": 1, "websocket_client": 3}[module]
+    R.floor("loss-signal-ends-loop", len(kinds), want, "distinct loss signals (read Err / end of stream / undecodable frame) in " + lb.path)
+    for u in sorted(used):
+        R.exception("loss-signal-ends-loop", lb.path + ":" + u, LOSS_EXCEPTIONS[u])
+    w = must_cross(lb, loss, reads, [], after_start=False, stop=stops)
+    R.check(w is None, "loss-signal-ends-loop", lb.path, "no further read after a loss signal",
+            "after a read error / end of stream / undecodable frame the response loop goes back to reading (blocks %s): the waiters are not failed while the "
+            "connection is already gone" % w, lb.span, "loss edges %s never reach a read again (exceptions: %s)" % (sorted(set(loss))[:6], sorted(used)), path=w)
+    if module == "websocket_client":
+        db = facts.body("websocket_client::decode_websocket_frame")
+        from rules.common import value_rows
+        rows = value_rows(db, Sym(db), facts, 0)
+        close_rows = [(g, v) for g, v in rows if any("Close" in x for x in g)]
+        R.check(bool(close_rows) and all(v.startswith("Result::Err") for g, v in close_rows), "loss-signal-ends-loop", db.path, "a Close frame is a loss signal",
+                "decode_websocket_frame maps a peer Close frame to %s: the loop keeps waiting on a connection the peer has closed" % [v[:40] for g, v in close_rows],
+                db.span, "Close -> Err")
+        ignored = [g for g, v in rows if v == "Result::Ok{0: Option::None{}}"]
+        okset = all(set(_variants(x)) <= {"Ping", "Pong", "Frame"} for g in ignored for x in g if "arg1 is" in x)
+        R.check(okset, "loss-signal-ends-loop", db.path, "only keep-alive frames are skipped", "frames skipped without effect: %s" % ignored, db.span, "skipped: Ping/Pong/Frame")
+
+
+def _variants(text):
+    import re
+    return re.findall(r"[A-Z][A-Za-z]+", text.split(" is ", 1)[1]) if " is " in text else []
 
 
 def _first_select_future_is_shutdown(b, s):
